@@ -517,7 +517,7 @@ PROPS = {
                      "stored, the invariant is preserved (an induction step, so histories of every length are covered up to the "
                      "table size)"},
         ],
-        "explanation": "Unit multistream (net/client/multi_stream.rs, real text of the async state machine Request::get_response; DESUGAR_ASYNC second form: every `.await` becomes `.await_m()` on a prelude model of the awaited value, where a bare future has `await_m() requires false` and only a future wrapped in timeout(..) may be waited for): at every await point of the function -- asking the run loop for a connection, receiving it, the query itself, the retry delay -- the wait is under tokio's timeout, `remaining` is computed without underflow and an elapsed budget returns StreamReadTimeout at the next turn; the documented panic "Already done" is a precondition (seed C15-9, the command hand-over awaited without a timeout, fails the obligation at that await). Transport::insert_req of the multiplexed stream transport (unit queries, real text): whatever the connection state and the request, no outstanding request is disturbed, at most one slot is taken, a message is handed to the writer only together with a recorded request, and whenever a request is outstanding afterwards the connection is Active with the response timer armed -- the fact the run loop's response timeout rests on (seed C15-8, the timer cleared on a refused request while another is in flight, fails it). Unit dgram (net/client/dgram.rs, real text of the async Connection::handle_request_impl -- the whole life of one request on the datagram transport -- under edit kind DESUGAR_ASYNC, with sockets, semaphore, clock and timer as prelude models that may answer anything at every step): the message handed to the caller has passed request.is_answer for the request as last transmitted (same question, the ID of that transmission), whatever arrived before it; the number of transmissions is 1 + max_retries, which cannot overflow because Config::set_max_retries (real text, with DefMinMax::limit) trims the value to at most 100 (seed C15-7, a truncated datagram accepted without the test, fails the postcondition). contract on the data structure that ties a response to its request on a multiplexed stream (message ID = slot "
+        "explanation": "Unit multistream (net/client/multi_stream.rs, real text of the async state machine Request::get_response; DESUGAR_ASYNC second form: every `.await` becomes `.await_m()` on a prelude model of the awaited value, where a bare future has `await_m() requires false` and only a future wrapped in timeout(..) may be waited for): at every await point of the function -- asking the run loop for a connection, receiving it, the query itself, the retry delay -- the wait is under tokio's timeout, `remaining` is computed without underflow and an elapsed budget returns StreamReadTimeout at the next turn; the documented panic 'Already done' is a precondition (seed C15-9, the command hand-over awaited without a timeout, fails the obligation at that await). Transport::insert_req of the multiplexed stream transport (unit queries, real text): whatever the connection state and the request, no outstanding request is disturbed, at most one slot is taken, a message is handed to the writer only together with a recorded request, and whenever a request is outstanding afterwards the connection is Active with the response timer armed -- the fact the run loop's response timeout rests on (seed C15-8, the timer cleared on a refused request while another is in flight, fails it). Unit dgram (net/client/dgram.rs, real text of the async Connection::handle_request_impl -- the whole life of one request on the datagram transport -- under edit kind DESUGAR_ASYNC, with sockets, semaphore, clock and timer as prelude models that may answer anything at every step): the message handed to the caller has passed request.is_answer for the request as last transmitted (same question, the ID of that transmission), whatever arrived before it; the number of transmissions is 1 + max_retries, which cannot overflow because Config::set_max_retries (real text, with DefMinMax::limit) trims the value to at most 100 (seed C15-7, a truncated datagram accepted without the test, fails the postcondition). contract on the data structure that ties a response to its request on a multiplexed stream (message ID = slot "
                        "index of net/client/stream.rs::Queries): representation invariant (count == number of occupied slots, all slots "
                        "below curr occupied, at most 65535 slots so every index fits a 16-bit ID) is preserved by new/insert/insert_at/"
                        "try_remove; insert hands out only a slot that was free or new and leaves every other slot untouched (no "
